@@ -113,6 +113,18 @@ pub fn step(w: &mut World, e: &Value) -> Value {
 			e["fees"].as_u64().unwrap_or(0) * w.unit,
 		),
 		"scan" => w.scan(&wn, e["start"].as_i64().filter(|x| *x >= 0).map(|x| x as u64), e["del"].as_bool().unwrap_or(false)),
+		"fork" => w.fork(e["depth"].as_u64().unwrap_or(1), &strs(&e["keep"])),
+		"diverge" => w.diverge(&wn, e["kind"].as_str().unwrap_or(""), e["key"].as_str().unwrap_or("")),
+		"restore" => {
+			// a new wallet `w` from the recovery phrase of `from`
+			let from = e["from"].as_str().unwrap_or("w1").to_string();
+			if w.wallets.contains_key(&wn) {
+				json!({"ev": "restore", "w": wn, "from": from, "res": "skip"})
+			} else {
+				w.create_wallet(&wn, false, Some(&from));
+				json!({"ev": "restore", "w": wn, "from": from, "res": "ok"})
+			}
+		}
 		"node_down" => w.node_up(false),
 		"node_up" => w.node_up(true),
 		"reopen" => {
